@@ -114,6 +114,11 @@ func (lv *LeafVariants) canDelete() bool {
 func (lv *LeafVariants) shouldDelete() bool {
 	lv.lesMutex.RLock()
 	defer lv.lesMutex.RUnlock()
+	return lv.shouldDeleteUnlocked()
+}
+
+// shouldDeleteUnlocked is shouldDelete for callers that hold the lesMutex already
+func (lv *LeafVariants) shouldDeleteUnlocked() bool {
 	// only procede if we have leave variants
 	if len(lv.les) == 0 {
 		return false
@@ -149,8 +154,15 @@ func (lv *LeafVariants) remainsToExist() bool {
 		return false
 	}
 
+	// if the value is explicitly deleted from the device, the running
+	// variant (which just mirrors the device) does not keep it alive.
+	shouldDelete := lv.shouldDeleteUnlocked()
+
 	// go through all variants
 	for _, l := range lv.les {
+		if shouldDelete && l.Owner() == RunningIntentName {
+			continue
+		}
 		// if an entry exists that does not have the delete flag set,
 		// then a remaining LeafVariant exists.
 		if !l.GetDeleteFlag() {
@@ -197,7 +209,8 @@ func (lv *LeafVariants) GetHighestPrecedence(onlyNewOrUpdated bool, includeDefau
 	if len(lv.les) == 0 {
 		return nil
 	}
-	if onlyNewOrUpdated && lv.shouldDelete() {
+	shouldDelete := lv.shouldDeleteUnlocked()
+	if onlyNewOrUpdated && shouldDelete {
 		return nil
 	}
 
@@ -217,15 +230,29 @@ func (lv *LeafVariants) GetHighestPrecedence(onlyNewOrUpdated bool, includeDefau
 		}
 	}
 
+	// if it does not matter if the highes update is also New or Updated,
+	// return the entry that rules when the pending action is through. Entries that are
+	// marked for deletion do not contribute, neither does the running value if it is being deleted.
+	if !onlyNewOrUpdated {
+		var resulting *LeafEntry
+		for _, e := range lv.les {
+			if e.GetDeleteFlag() || (shouldDelete && e.Owner() == RunningIntentName) {
+				continue
+			}
+			if resulting == nil || resulting.Priority() > e.Priority() {
+				resulting = e
+			}
+		}
+		// do not include defaults loaded at validation time
+		if resulting == nil || checkNotDefaultAllowedButIsDefaultOwner(resulting, includeDefaults) {
+			return nil
+		}
+		return resulting
+	}
+
 	// do not include defaults loaded at validation time
 	if checkNotDefaultAllowedButIsDefaultOwner(highest, includeDefaults) {
 		return nil
-	}
-
-	// if it does not matter if the highes update is also
-	// New or Updated return it
-	if !onlyNewOrUpdated {
-		return highest
 	}
 
 	// if the highes is not marked for deletion and new or updated (=PrioChanged) return it
